@@ -11,7 +11,8 @@ RULE = ("histories over 1-4 resources with 0-3 isolation rules each (thresholds 
         "(2^32-inflight .. 2^32-1), a quarter of the entries without any batch option (default 1), resource types varied per entry, exits in "
         "random order incl. Exit(WithError), TraceError before/after exit, double exits, two goroutines exiting one entry at once (dexit), "
         "exits of blocked/unknown ids, gauge reads, rule reloads mid-history with live entries (append a stricter/looser rule, remove, "
-        "reorder, change, same, fresh), LoadRulesOfResource / ClearRulesOfResource on resources with and without rules (repeated, followed by "
+        "reorder, change, same, fresh), half of all loads through one reused caller-owned slice that is overwritten after the call "
+        "(sload/sloadres), in-place edits of loaded rule objects (poke), GetRulesOfResource/GetRules reads, LoadRulesOfResource / ClearRulesOfResource on resources with and without rules (repeated, followed by "
         "traffic on the others), virtual clock steps (mostly backwards), and schedule ops (par/sched: 1-6 goroutines parked at chain.between-check-and-stat, random interleavings of "
         "check/record/exit steps); non-trivial = at least one pass, one isolation block and one exit that is not of the newest live entry; "
         "distinct by (rules, op-kind/boundary-class sequence); plus every short schedule over 2-4 threads, and soak cases (2-16 real "
@@ -35,6 +36,8 @@ class Sim:
         self.exited = []
         self.next_id = 1
         self.clock = 10000
+        self.rng = None
+        self.toks, self.idx = [], []
 
     def infl(self, res):
         return sum(1 for r in self.live.values() if r == res)
@@ -58,14 +61,20 @@ def gen_rules(rng, sim, ops):
     set_rules(sim, ops, toks)
 
 
+def rebuild(sim):
+    sim.rules = {}
+    for r, t in sim.toks:
+        if t != 0:
+            sim.rules.setdefault(r, []).append(t)
+
+
 def set_rules(sim, ops, toks):
     toks = [(r, min(max(t, 0), U32 - 1)) for r, t in toks]
     sim.toks = list(toks)
-    sim.rules = {}
-    for r, t in toks:
-        if t != 0:
-            sim.rules.setdefault(r, []).append(t)
-    ops.append("load" + "".join(f" {r}:{t}" for r, t in toks))
+    sim.idx = list(range(len(toks)))            # rule ids: positions in the load list
+    rebuild(sim)
+    # half of the loads go through the one caller-owned scratch slice that is overwritten after the call
+    ops.append(("sload" if sim.rng.random() < 0.5 else "load") + "".join(f" {r}:{t}" for r, t in toks))
 
 
 def reload_rules(rng, sim, ops, cls):
@@ -131,6 +140,7 @@ def pick_batch(rng, sim, res, cls):
 
 def gen_case(rng, cid):
     sim = Sim()
+    sim.rng = rng
     ops, cls = [], []
     gen_rules(rng, sim, ops)
     pool = sorted(set(list(sim.rules) + [rng.choice(RES)]))
@@ -148,6 +158,8 @@ def gen_case(rng, cid):
                 continue
             b = pick_batch(rng, sim, res, cls)
             ty = f" type={rng.choice(TYPES)}" if rng.random() < 0.3 else ""
+            if rng.random() < 0.1:
+                ty += " in"                 # WithTrafficType(Inbound): the inbound node is updated as well, the resource gauge as always
             if rng.random() < 0.25:
                 b = 1                       # no WithBatchCount option at all: the default batch is 1
                 cls[-1] = "default"
@@ -205,15 +217,37 @@ def gen_case(rng, cid):
                 cls.append("clearres" + ("" if r in sim.rules else "-ruleless"))
             else:
                 ths = [rng.choice(THR_SMALL + [0]) if rng.random() < 0.85 else rng.choice(THR_EDGE) for _ in range(rng.choice([0, 1, 1, 2, 3]))]
-                ops.append("loadres " + r + "".join(f" {t}" for t in ths))
+                kind = "sloadres " if rng.random() < 0.6 else "loadres "
+                last = getattr(sim, "last_s", None)
+                if last and rng.random() < 0.4:
+                    # regression slice for the fixed finding loadres-raw-slice-alias: the same resource reloaded through the reused
+                    # slice with the same number of rules
+                    r, kind = last[0], "sloadres "
+                    ths = [rng.choice(THR_SMALL) for _ in range(last[1])]
+                    cls.append("slice-reuse-same-length")
+                if kind == "sloadres " and ths:
+                    sim.last_s = (r, len(ths))
+                ops.append(kind + r + "".join(f" {t}" for t in ths))
                 cls.append("loadres")
-            sim.toks = [(a, t) for a, t in getattr(sim, "toks", []) if a != r] + [(r, t) for t in ths]
-            sim.rules.pop(r, None)
-            if [t for t in ths if t]:
-                sim.rules[r] = [t for t in ths if t]
-        elif x < 0.84:
+            keep = [(a, t, i) for (a, t), i in zip(sim.toks, sim.idx) if a != r]
+            sim.toks = [(a, t) for a, t, _ in keep] + [(r, t) for t in ths]
+            sim.idx = [i for _, _, i in keep] + list(range(len(ths)))      # loadres numbers within its own list
+            rebuild(sim)
+        elif x < 0.822:
             ids = list(sim.live) + sim.exited[-3:] + sim.blocked[-2:]
             ops.append(f"trace {rng.choice(ids) if ids else 7}")
+        elif x < 0.83:
+            # the caller edits a rule object it loaded (position = index in the last load list of that resource)
+            r = rng.choice(RES)
+            own = [i for (a, t), i in zip(sim.toks, sim.idx) if a == r and t != 0]
+            idx = rng.choice(own + own + [0, 1, 7]) if own else rng.choice([0, 1])      # a miss (or an invalid rule) is a no-op
+            t = rng.choice([1, 1, 2, 3, max(sim.infl(r), 1), sim.infl(r) + 1, U32 - 1])
+            ops.append(f"poke {r} {idx} {t}")
+            cls.append("poke")
+            sim.toks = [(a, t if (a == r and i == idx and v != 0) else v) for (a, v), i in zip(sim.toks, sim.idx)]
+            rebuild(sim)
+        elif x < 0.84:
+            ops.append(rng.choice([f"rules {res}", f"rules {rng.choice(RES)}", "rules"]))
         elif x < 0.90:
             k = rng.choice([1, 2, 2, 3, 3, 4, 6])
             b = pick_batch(rng, sim, res, cls)
@@ -269,7 +303,9 @@ def densify(ops, rng):
         t = o.split()
         if t[0] == "load":
             names.update(a.split(":")[0] for a in t[1:])
-        elif t[0] in ("loadres", "clearres"):
+        elif t[0] == "sload":
+            names.update(a.split(":")[0] for a in t[1:])
+        elif t[0] in ("loadres", "clearres", "sloadres"):
             names.add(t[1])
         elif t[0] in ("entry", "sched"):
             names.add(t[2])
@@ -320,10 +356,10 @@ def nontrivial(case, impl):
             npass += sum(1 for b in body if b in ("p", "x"))
             nblock += sum(1 for b in body if b.startswith("b"))
             kinds.append("S" + "".join(b[0] for b in body))
-        elif t[0] in ("load", "loadres", "clearres", "clock"):
+        elif t[0] in ("load", "sload", "loadres", "sloadres", "clearres", "clock", "poke"):
             kinds.append(t[0][0] + t[0][-1])
     if npass and nblock and ooo:
-        return hash((tuple(o for o in case.ops if o.startswith("load")), "".join(kinds), case.tags))
+        return hash((tuple(o for o in case.ops if o.startswith("load") or o.startswith("sload")), "".join(kinds), case.tags))
     return None
 
 
